@@ -14,7 +14,18 @@ Richardson-extrapolated central differences of (a) the reference cost of C06 (in
 1e-12 + scipy.stats log-densities) and (b) pygom's own `cost` / `costIV`; (iii) HISTORY cases (losshist.py, oracle (a)):
 scripts of calls of all eleven entry points on one or two loss objects - sensitivity / gradient / jac / sensitivityIV /
 jacIV / diff_loss / diff_lossIV judged against the reference derivative for the values the object currently holds (the
-state machine `Held` / `step` of Pygom/Props/C06.lean); observations, x0, grid, weights, spreads in float and int containers.
+state machine `Held` / `step` of Pygom/Props/C06.lean); observations, x0, grid, weights, spreads in float and int containers;
+(iv) ROUND C families, same oracle (a)+(b): TIME-DEPENDENT models (losscommon.TD_CATALOGUE: a parameter that acts only during a
+window of time - bump / squared bump / box (Piecewise) / Heaviside difference / trapezoid (Max, Min) / ramp or step after a threshold
+time / early window from t0 - in an SIR import rate, a lock-down factor, a vaccination campaign (4 states), a LINEAR dosing chain; a
+parameter multiplying a state that is exactly zero until the window opens; a declared state that never changes), observation times
+after the window has closed, the reference integrated piecewise between the non-smooth time points (which do not depend on the
+parameters: the solution is smooth in the free variables at every fixed time); and SELECTIONS run through systematically:
+state_name / target_param / target_state each as all-in-non-declared-order, all-in-declared-order, default None, subset in
+non-declared order, on catalogue, time-dependent and random models; boundary values: a weight exactly 0 / exactly 1 for one observed
+state, weights that differ between the states, a single observation time, a parameter exactly 0 at the evaluation point; `jacIV`
+(with target_state) judged in every gradient case next to `jac`.  A disagreement with the first difference level is CONFIRMED on two
+finer Richardson levels before it is reported (`finer`).
 """
 import json
 import random
@@ -43,7 +54,16 @@ RULE = ("random bounded models and catalogue models as in C06; theta, x0, grids;
         "copy.deepcopy of a loss object; all four combinations of target_param / target_state; t0 != 0; theta as list / tuple / "
         "ndarray / numpy scalars; y, x0, t, weights, spread as float or int containers (integer observations for every class).  "
         "A history case is non-trivial when at least two calls were judged against the reference derivative for the values the "
-        "object currently holds.")
+        "object currently holds.  ROUND C gradient cases (same non-triviality rule as gradient cases; two loss classes per case, Square "
+        "always): `timedep` - every (model, window shape) pair of losscommon.TD_CATALOGUE x TD_SHAPES in turn (6 models, 8 shapes: "
+        "parameter acting only inside a time window, after a threshold time, from t0 until a closing time; a parameter multiplying a "
+        "state that is exactly zero until the window opens; linear dosing chain; a declared state that never changes), >= 1 observation "
+        "time after the window has closed, the windowed parameter always free, all states observed in a non-declared order / a subset "
+        "in non-declared order / any; `select` - (state_name, target_param, target_state) through all-permuted / all-declared / None / "
+        "subset-permuted (3 x 4 x 4 combinations in turn) on time-dependent, catalogue and random models; boundary values (tags "
+        "boundary:*): weight exactly 0 or exactly 1 for one observed state, weights differing between states (per-state vector or n x p "
+        "matrix), one observation time (one observed state: several states with one time are rejected by the unchanged constructor), "
+        "a parameter exactly 0 at the evaluation point; jac and jacIV judged in every gradient case (tags select:*, td-model:*, td-shape:*).")
 ASSUMPTIONS = ["integrating the variational (forward sensitivity) system yields the derivative of the flow in the parameters and the "
                "initial values (classical, not in Mathlib): hypothesis `hsens` of grad_is_chain_rule; validated per case against "
                "finite differences of an independent reference",
@@ -53,6 +73,12 @@ ASSUMPTIONS = ["integrating the variational (forward sensitivity) system yields 
                "finite differences: Richardson extrapolation of central differences with steps h, h/2, h = 2e-3 max(|u|, 0.05) on the "
                "1e-12 reference (tolerance 1e-4 (1+|fd|)) and h = 1e-2 max(|u|, 0.05) on pygom's own cost (tolerance 1e-3 (1+|fd|) "
                "+ 1e-7 scale / h, scale = sum of absolute per-entry loss terms: pygom integrates at 1e-10)",
+               "a disagreement between the code and the first finite-difference level (steps h, h/2) is reported only after two finer "
+               "Richardson levels (h/4, h/8) and (h/16, h/32) of the reference agree with each other to a tenth of the tolerance and still "
+               "disagree with the code (tag fd-refined:*): on stiff trajectories (FitzHugh) the first level can be outside its asymptotic range",
+               "time-dependent catalogue: the non-smooth time points of the window shapes do not depend on parameters or initial values, so "
+               "the reference solution at a fixed time is a smooth function of the free variables; the reference integrates piecewise between "
+               "those points (ref_traj_td); pygom integrates across them with its own error control (observed agreement ~1e-7)",
                "history cases: the Lean model takes the gradient and the Jacobian as pure functions of (theta, x0, data, layout); the loss "
                "object is read as holding the parameter values and initial values it was last given through ANY entry point (constructor, "
                "cost, costIV, sensitivityIV, ...), parameters outside target_param are the model object's current values "
@@ -60,7 +86,8 @@ ASSUMPTIONS = ["integrating the variational (forward sensitivity) system yields 
                "weight x diff_loss = d(per-entry loss term)/d(prediction)"]
 TRUSTED = ["harness generator and reference: scipy.integrate.solve_ivp(DOP853), scipy.stats log-densities, Richardson differences",
            "right-hand side of the reference: Lean driver `assemble` output (C01) compiled by losscommon.compile_rhs; hand-written "
-           "for catalogue models", "Lean driver JSON codec"]
+           "for catalogue models and for the time-dependent catalogue (losscommon.TD_CATALOGUE, window shapes as plain Python max / min / "
+           "comparisons)", "Lean driver JSON codec"]
 
 METHODS = ["lsoda", "vode", "ivode", "dopri5", "dop853"]
 SPREAD_RANGE = {"Normal": (0.3, 2.0), "Gamma": (1.0, 5.0), "NegBinom": (0.5, 5.0)}
